@@ -33,6 +33,12 @@ func init() {
 				treeRejectionsRule(P, R, "C14.g", "keyshare", "the keyshare call tree")
 				treeRejectionsRule(P, R, "C14.g", "show", "the verification call tree")
 			}},
+		Rule{ID: "C14.i", Explain: "the exchange can be repeated on the same builders: no field of a proof builder that Commit (or the functions it calls) writes is read there before it was written in the same call - both sides would agree on a challenge over a commitment kept from an abandoned first attempt while the responses use the new randomisers.",
+			Run: func(P *Program, R *Report) {
+				noCrossCallStateRuleFor(P, R, "C14.i", map[string]bool{"gabi.DisclosureProofBuilder": true, "gabi.CredentialBuilder": true},
+					[]string{"gabi.(*DisclosureProofBuilder).Commit", "gabi.(*CredentialBuilder).Commit"}, 1,
+					map[string]string{"<gabi.NonRevocationProofBuilder>.commitments": "commit-once by design (C07.d consume-once typestate)"})
+			}},
 		Rule{ID: "C14.h", Explain: "aliasing discipline: keyshare messages are not modified in place - no function mutates in place a big.Int it reached through gabi.ProofP / gabi.ProofPCommitment / gabi.KeyshareCommitmentRequest / gabi.KeyshareResponseRequest (math/big mutators write their receiver), except the tabled merge/refresh functions.",
 			Run: func(P *Program, R *Report) { inPlaceDisciplineRule(P, R, "C14.h", "gabi.ProofP", "gabi.ProofPCommitment", "gabi.KeyshareCommitmentRequest", "gabi.KeyshareResponseRequest") }},
 		Rule{ID: "C14.f", Explain: "BuildDistributedProofList: a ProofP list of the wrong length is an error; every builder's proof is created with the given challenge and merged with its ProofP when one is present.",
